@@ -783,7 +783,7 @@ Proof.
   - apply step_spit; auto.
 Qed.
 
-Lemma Inv_init : Inv (init_world 0) init_sworld [].
+Lemma Inv_init b : Inv (init_world b) init_sworld [].
 Proof.
   split; [|intro slot; exact I]. constructor; cbn.
   - reflexivity.
@@ -817,6 +817,6 @@ Theorem refines_lemma : forall l,
   forallb c10_op l = true -> known_free l = true ->
   Forall2 obs_ok (snd (srun init_sworld l)) (snd (run (init_world 0) l)).
 Proof.
-  intros l Hal Hk. apply (run_refines l _ _ [] Inv_init Hal).
+  intros l Hal Hk. apply (run_refines l _ _ [] (Inv_init 0) Hal).
   unfold known_free, classes in Hk. destruct (classes_from init_sworld [] l); [reflexivity|discriminate].
 Qed.
